@@ -116,10 +116,12 @@ def realign_inputs(draw, min_records=1, max_records=14, max_ln=12, max_chroms=1)
     lm = models.LinkModel(g["links"])
     n = draw(st.integers(min_records, max_records))
     lines, fasta = [], []
+    names = ["rd%d" % i for i in range(n)]
+    rnd.shuffle(names)  # read names are not in any particular order in a GAF
     for i in range(n):
-        line, read = draw(realign_record(g, lm, "rd%d" % i, rnd))
+        line, read = draw(realign_record(g, lm, names[i], rnd))
         lines.append(line)
-        fasta.append(">rd%d\n%s\n" % (i, read))
+        fasta.append(">%s\n%s\n" % (names[i], read))
     return {"gfa": gen_graph.gfa_text(g, with_seq=True, order_seed=draw(st.integers(0, 99))), "gaf": lines,
             "fasta": "".join(fasta)}
 
